@@ -43,16 +43,22 @@ def run(repo, chk):
 
 
 def _branch_assigns(fn: Fn, test_text: str):
-    """{True: {local: value text}, False: {...}} for the if/else whose test is `test_text`"""
+    """{True: {local: value text}, False: {...}} for the if/else that branches on `test_text` (also when it is
+    written `if not <test>: ... else: ...`, or through a single-definition local)"""
     for st in fn.stmts(lambda s: isinstance(s, ast.If)):
-        if norm(st.test) == test_text and st.orelse:
+        if not st.orelse:
+            continue
+        t, flip = st.test, False
+        if isinstance(t, ast.UnaryOp) and isinstance(t.op, ast.Not):
+            t, flip = t.operand, True
+        if norm(t) == test_text or fn.expand(t, 2) == test_text:
             out = {}
             for pol, body in ((True, st.body), (False, st.orelse)):
                 d = {}
                 for b in body:
                     if isinstance(b, ast.Assign) and len(b.targets) == 1 and isinstance(b.targets[0], ast.Name):
                         d[b.targets[0].id] = norm(b.value)
-                out[pol] = d
+                out[pol != flip] = d
             return st, out
     return None, None
 
@@ -267,13 +273,17 @@ def r4(repo, chk):
     loops = [st for st in u.stmts(lambda s: isinstance(s, ast.While))]
     ok = len(loops) == 1
     if ok:
-        at = flatten_cond(loops[0].test, True)
-        rel = [a for a in at if "max_streams" in a[0]]
-        # complement of `stream_id // 4 >= max_streams` is `max_streams > stream_id // 4`
-        ok = len(rel) == 1 and rel[0][0].replace("streams_blocked[0].stream_id", "stream_id") == "max_streams > stream_id // 4" and rel[0][1] is True and ("streams_blocked", True) in at
-        body = loops[0].body
-        txt = [norm(s) for s in body]
-        ok = ok and "stream = streams_blocked.pop(0)" in txt and "stream.is_blocked = False" in txt and "stream.max_stream_data_remote = max_stream_data_remote" in txt
+        body_stmts = [s for s in u.stmts() if inside(s, loops[0])]
+        txt = [norm(s) for s in body_stmts]
+        pops = [s for s in body_stmts if norm(s) == "stream = streams_blocked.pop(0)"]
+        ok = len(pops) == 1 and "stream.is_blocked = False" in txt and "stream.max_stream_data_remote = max_stream_data_remote" in txt
+        if ok:
+            # the release is dominated by: list non-empty, first blocked stream's index below the limit - whether that
+            # is written in the loop test or as `if ...: break` inside the loop (complement of the blocking test)
+            at = [(a_[0].replace("streams_blocked[0].stream_id", "stream_id"), a_[1]) for a_ in u.guard_atoms(pops[0])]
+            ok = ("streams_blocked", True) in at and natom("stream_id // 4 < max_streams") in at
+            rel = [s for s in body_stmts if norm(s) in ("stream.is_blocked = False", "stream.max_stream_data_remote = max_stream_data_remote")]
+            ok = ok and all(u.lexical_guards(s, expand=False) == u.lexical_guards(pops[0], expand=False) and s.lineno > pops[0].lineno for s in rel)
     chk.ob("R4", "_unblock_streams releases exactly the blocked streams whose index is below the new limit (complement of the blocking test), in order, and reloads their per-stream limit", ok, "a stream at index == limit would be opened (one beyond the peer's limit) or a covered stream stays blocked for ever", u.loc(u.node))
     kinds = {norm(v) for st, t, v in u.assigns(chain="max_streams")}
     chk.ob("R4", "_unblock_streams compares with the limit of the right kind", kinds == {"self._remote_max_streams_uni", "self._remote_max_streams_bidi"}, "", u.loc(u.node))
